@@ -45,8 +45,9 @@ FORMS = ['convert1', 'convert2', 'convertdict', 'convertwhere',
          'convertpassrow', 'convertmethod', 'convertall', 'convertnumbers',
          'format', 'formatall', 'interpolate', 'interpolateall', 'fieldmap',
          'fieldmap2', 'rowmap', 'rowmapmany', 'fieldmapdict',
-         'fieldmapexpr', 'sub']
-TWO_FIELD = ('convert2', 'convertdict', 'convertall', 'fieldmap2')
+         'fieldmapexpr', 'sub', 'fieldmap3']
+TWO_FIELD = ('convert2', 'convertdict', 'convertall', 'fieldmap2',
+             'fieldmap3')
 NATURAL = ('fieldmapdict', 'fieldmapexpr', 'sub',
            'convertmethod', 'convertnumbers', 'format', 'formatall',
            'interpolate', 'interpolateall')
@@ -138,6 +139,13 @@ _KINDS = {'plain': None, 'stop': InjectedStop, 'key': InjectedKey,
           'index': InjectedIndex, 'type': InjectedType, 'attr': InjectedAttr}
 INJECTED = (InjectedStop, InjectedKey, InjectedIndex, InjectedType,
             InjectedAttr)
+
+
+def _inline():
+    """The policy name as a string made at run time (read from a settings
+    file, normalised with .lower()...): equal to 'inline', not the interned
+    literal."""
+    return ''.join(['in', 'li', 'ne'])
 
 
 class Returned(ValueError):
@@ -286,7 +294,8 @@ def _gen_case(rng, tier, g):
             # converters that succeed by returning an exception object
             'returns_exc': form in ('convert1', 'convert2', 'convertdict',
                                     'convertwhere', 'convertpassrow',
-                                    'convertall', 'fieldmap', 'fieldmap2')
+                                    'convertall', 'fieldmap', 'fieldmap2',
+                                    'fieldmap3')
             and rng.random() < 0.2}
 
 
@@ -410,6 +419,13 @@ def _build(e, case, fl, policy, mode, tbl):
         m = OrderedDict([('V', fl.recfun('v')), ('id', 'id'),
                          ('W', ('w', fl.conv('w')))])
         return e.fieldmap(tbl, m, **evkw)
+    if form == 'fieldmap3':
+        # two fields that can fail, with further fields after them
+        from collections import OrderedDict
+        m = OrderedDict([('V', fl.recfun('v')), ('W', ('w', fl.conv('w'))),
+                         ('id', 'id'), ('tail', lambda rec: 'tail'),
+                         ('v0', 'v')])
+        return e.fieldmap(tbl, m, **evkw)
     if form == 'rowmap':
         return e.rowmap(tbl, fl.rowmapper(), header=['id', 'm', 'n'], **kw)
     if form == 'rowmapmany':
@@ -500,6 +516,16 @@ def _model(case, fail, policy):
             if raised:
                 break
             rows.append([cv, r, cw])
+    elif form == 'fieldmap3':
+        rows.append(['V', 'W', 'id', 'tail', 'v0'])
+        for r in range(n):
+            cv = cellres(r, 'v', _cell(r * 10 + 1))
+            if raised:
+                break
+            cw = cellres(r, 'w', _cell(r * 10 + 2))
+            if raised:
+                break
+            rows.append([cv, cw, r, 'tail', _cell(r * 10 + 1)])
     elif form == 'rowmap':
         rows.append(['id', 'm', 'n'])
         for r in range(n):
@@ -697,7 +723,7 @@ def run_case(case):
                     tbl = _table(case, _natural_cells(case, fail))
                 else:
                     tbl = _table(case)
-                for policy in (False, True, 'inline'):
+                for policy in (False, True, _inline()):
                     if natural:
                         want, raised = _natural_model(case, fail, policy)
                     else:
@@ -729,7 +755,7 @@ def run_case(case):
                         # then set it to something else before iterating
                         if results is None:
                             config.failonerror = policy if mode == 'config' \
-                                else ('inline' if policy is not True
+                                else (_inline() if policy is not True
                                       else False)
                             view = _build(e, case, fl, policy, mode, tbl)
                             config.failonerror = False if policy else True
